@@ -165,6 +165,11 @@ func (g *Gen) paramVal(st *State, name string, t types.Type) Val {
 
 // frameObligation: every heap location not named in assigns is unchanged at return (objects allocated by the function excepted).
 func (fr *Frame) frameObligation(st *State, site string) {
+	fr.g.oblige("frame", site, st.path, fr.frameFormula(st), "assigns clause: nothing else is modified")
+}
+
+// frameFormula: every pre-existing heap location outside the assigns clause has its entry value in st.
+func (fr *Frame) frameFormula(st *State) string {
 	g := fr.g
 	con := fr.con
 	// collect allowed (key -> list of refs) from assigns
@@ -188,6 +193,14 @@ func (fr *Frame) frameObligation(st *State, site string) {
 				} else {
 					k, _ := g.ptrKey(pt.Elem())
 					allowed[k] = append(allowed[k], sv.Term)
+				}
+			}
+		case *SCall:
+			if x.Fun == "elems" && len(x.Args) == 1 {
+				sv := fr.evalSpec(x.Args[0], ctx)
+				if sl, ok := sv.T.Underlying().(*types.Slice); ok {
+					k, _ := g.elemKey(sl.Elem())
+					allowed[k] = append(allowed[k], "(sl_ref "+sv.Term+")")
 				}
 			}
 		case *SSel:
@@ -224,7 +237,7 @@ func (fr *Frame) frameObligation(st *State, site string) {
 		}
 		goals = append(goals, "(forall (("+r+" Int)) (=> "+and(conds...)+" (= (select "+cur+" "+r+") (select "+old+" "+r+"))))")
 	}
-	g.oblige("frame", site, st.path, and(goals...), "assigns clause: nothing else is modified")
+	return and(goals...)
 }
 
 // lateParamAssumptions: for every interface-typed parameter and every dynamic type seen in the script,
